@@ -176,6 +176,12 @@ def match_known(known, pid, key):
 
 
 def main(argv=None):
+    # A check started as a background job of a non-interactive shell inherits SIGINT as *ignored*; Python then
+    # installs no handler, and every child process (scenario workers, the daemon under test) would ignore the
+    # SIGINTs the checks send on purpose. A handler set here is reset to the default action in every exec'd child.
+    import signal
+    if signal.getsignal(signal.SIGINT) in (signal.SIG_IGN, None):
+        signal.signal(signal.SIGINT, signal.default_int_handler)
     ap = argparse.ArgumentParser()
     ap.add_argument("pid")
     ap.add_argument("--tier", default=os.environ.get("VERIF_TIER", "quick"), choices=["quick", "thorough"])
